@@ -116,52 +116,77 @@ def setFilterData (f : Filter α) (typ : Nat) (k : Key) (d : Typed α) (byRef : 
     if byRef then .error .deleteByRef
     else if r.ty == d.ty then .ok { f with set := insertAt r.idx d.val f.set } else .error .filterFieldType
 
-/-- `filtersForSelectorsElements` (appends to `filters`) -/
+/-- `addSelectorToFilter` / `addElementToFilter` when a value is given -/
+def addToFilter (typ : Nat) (k : Key) (byRef : Bool) (f : Filter α) : Option (Typed α) → Except Panic (Filter α)
+  | some d => setFilterData f typ k d byRef
+  | none => .ok f
+
+/-- first half of `filtersForSelectorsElements`: the delete filter, if a delete selector or delete elements
+    is given (the defect flag says whether their ADDRESS is passed on) -/
+def deleteFilters (cfg : Cfg) (k : Key) (delSel delEl : Option (Typed α)) : Except Panic (List (Filter α)) :=
+  if delSel.isSome || delEl.isSome then
+    match addToFilter 1 k cfg.deleteByRef { delete := true } delSel with
+    | .error e => .error e
+    | .ok f =>
+      match addToFilter 2 k cfg.deleteByRef f delEl with
+      | .error e => .error e
+      | .ok f => .ok [f]
+  else .ok []
+
+/-- second half: the partial filter, if a partial selector or read elements is given -/
+def partialFilters (k : Key) (partSel readEl : Option (Typed α)) : Except Panic (List (Filter α)) :=
+  if partSel.isSome || readEl.isSome then
+    match addToFilter 1 k false { part := true } partSel with
+    | .error e => .error e
+    | .ok f =>
+      match addToFilter 2 k false f readEl with
+      | .error e => .error e
+      | .ok f => .ok [f]
+  else .ok []
+
+/-- `filtersForSelectorsElements` (appends to `filters`; the delete filter is built first) -/
 def filtersFor (cfg : Cfg) (k : Key) (filters : List (Filter α))
-    (delSel partSel delEl readEl : Option (Typed α)) : Except Panic (List (Filter α)) := do
-  let filters ← (if delSel.isSome || delEl.isSome then do
-      let f : Filter α := { delete := true }
-      let f ← match delSel with
-        | some s => setFilterData f 1 k s cfg.deleteByRef
-        | none => pure f
-      let f ← match delEl with
-        | some e => setFilterData f 2 k e cfg.deleteByRef
-        | none => pure f
-      pure (filters ++ [f])
-    else pure filters)
-  if partSel.isSome || readEl.isSome then do
-    let f : Filter α := { part := true }
-    let f ← match partSel with
-      | some s => setFilterData f 1 k s false
-      | none => pure f
-    let f ← match readEl with
-      | some e => setFilterData f 2 k e false
-      | none => pure f
-    pure (filters ++ [f])
-  else pure filters
+    (delSel partSel delEl readEl : Option (Typed α)) : Except Panic (List (Filter α)) :=
+  match deleteFilters cfg k delSel delEl with
+  | .error e => .error e
+  | .ok d =>
+    match partialFilters k partSel readEl with
+    | .error e => .error e
+    | .ok p => .ok (filters ++ d ++ p)
 
 def filterEmptyPartial : List (Filter α) := [{ part := true }]
 
+/-- `if len(filters) > 0 { cmd.Filter = filters; cmd.Function = … }` -/
+def withFilters (cmd : Cmd α) (fn : Key) (filters : List (Filter α)) : Cmd α :=
+  if filters.isEmpty then cmd else { cmd with filter := filters, function := some fn }
+
 /-- `ReadCmdType(partialSelector, elements)`; `empty` is the encoding of `new(T)` -/
-def readCmd (cfg : Cfg) (fn : FnRow) (empty : α) (sel el : Option (Typed α)) : Except Panic (Cmd α) := do
-  let cmd ← createCmd fn.key ⟨fn.payloadKey, empty⟩
-  let filters ← filtersFor cfg fn.key [] none sel none el
-  if filters.length > 0 then pure { cmd with filter := filters, function := some 0 } else pure cmd
+def readCmd (cfg : Cfg) (fn : FnRow) (empty : α) (sel el : Option (Typed α)) : Except Panic (Cmd α) :=
+  match createCmd fn.key ⟨fn.payloadKey, empty⟩ with
+  | .error e => .error e
+  | .ok cmd =>
+    match filtersFor cfg fn.key [] none sel none el with
+    | .error e => .error e
+    | .ok filters => .ok (withFilters cmd 0 filters)
 
 /-- `ReplyCmdType(partial)`; `data` is the copy of the stored data (or `new(T)` when nothing is stored) -/
-def replyCmd (fn : FnRow) (data : α) (part : Bool) : Except Panic (Cmd α) := do
-  let cmd ← createCmd fn.key ⟨fn.payloadKey, data⟩
-  if part then pure { cmd with filter := filterEmptyPartial, function := some 0 } else pure cmd
+def replyCmd (fn : FnRow) (data : α) (part : Bool) : Except Panic (Cmd α) :=
+  match createCmd fn.key ⟨fn.payloadKey, data⟩ with
+  | .error e => .error e
+  | .ok cmd => .ok (if part then { cmd with filter := filterEmptyPartial, function := some 0 } else cmd)
 
 /-- `NotifyOrWriteCmdType(deleteSelector, partialSelector, partialWithoutSelector, deleteElements)` -/
 def notifyOrWriteCmd (cfg : Cfg) (fn : FnRow) (data : α) (delSel partSel : Option (Typed α))
-    (partialWithoutSelector : Bool) (delEl : Option (Typed α)) : Except Panic (Cmd α) := do
-  let cmd ← createCmd fn.key ⟨fn.payloadKey, data⟩
-  if partialWithoutSelector then
-    pure { cmd with filter := filterEmptyPartial, function := some fn.key }
-  else do
-    let filters ← filtersFor cfg fn.key [] delSel partSel delEl none
-    if filters.length > 0 then pure { cmd with filter := filters, function := some fn.key } else pure cmd
+    (partialWithoutSelector : Bool) (delEl : Option (Typed α)) : Except Panic (Cmd α) :=
+  match createCmd fn.key ⟨fn.payloadKey, data⟩ with
+  | .error e => .error e
+  | .ok cmd =>
+    if partialWithoutSelector then
+      .ok { cmd with filter := filterEmptyPartial, function := some fn.key }
+    else
+      match filtersFor cfg fn.key [] delSel partSel delEl none with
+      | .error e => .error e
+      | .ok filters => .ok (withFilters cmd fn.key filters)
 
 /-! ## recognisers -/
 
@@ -245,8 +270,8 @@ def encodeFilter (f : Filter α) : W α :=
         W.obj ((if f.delete then [(keyDelete, W.obj [])] else []) ++ (if f.part then [(keyPartial, W.obj [])] else [])))]
     else []
   -- FilterId (index 0) precedes CmdControl (index 1); everything else follows
-  let (pre, post) := f.set.partition fun p => p.1 == 0
-  W.obj (pre.map (fun p => (jsonOfFilterIdx p.1, W.val p.2)) ++ ctl ++ post.map (fun p => (jsonOfFilterIdx p.1, W.val p.2)))
+  W.obj ((f.set.filter fun p => Nat.beq p.1 0).map (fun p => (jsonOfFilterIdx p.1, W.val p.2)) ++ ctl ++
+         (f.set.filter fun p => !Nat.beq p.1 0).map (fun p => (jsonOfFilterIdx p.1, W.val p.2)))
 
 /-- encoding/json on a `CmdType` -/
 def encodeCmd (c : Cmd α) : W α :=
